@@ -186,7 +186,8 @@ Theorem C07_source_skeleton :
   sk_process_window_updated = map s2z expected_window_updated /\
   sk_process_remote_settings_changed = map s2z expected_settings_changed /\
   sk_connection_pause_writing = [s2z "call:self.write_ready.clear"] /\
-  sk_connection_resume_writing = [s2z "call:self.write_ready.set"] /\
+  sk_connection_resume_writing = map s2z expected_resume_writing /\
+  sk_connection_flush = map s2z expected_flush /\
   sk_protocol_pause_writing = [s2z "call:self.connection.pause_writing"] /\
   sk_protocol_resume_writing = [s2z "call:self.connection.resume_writing"].
 Proof. exact source_skeleton. Qed.
@@ -200,3 +201,10 @@ Theorem C07_source_no_suspension_between_read_and_send :
   nth_error sk_send_data 2 = Some (s2z "call:self._h2_connection.local_flow_control_window").
 Proof. exact source_two_suspension_points. Qed.
 Print Assumptions C07_source_no_suspension_between_read_and_send.
+
+(* ... and every h2.send_data in send_data is written to the transport at once (data_to_send +
+   transport.write follow it with nothing in between), so no DATA frame of a sender is ever queued
+   in h2 when resume_writing flushes: the flush emits nothing in this model (do_resume) *)
+Theorem C07_source_sends_flushed_at_once : sends_flushed sk_send_data = true.
+Proof. exact source_sends_flushed_at_once. Qed.
+Print Assumptions C07_source_sends_flushed_at_once.
